@@ -314,6 +314,9 @@ def run(chk):
             probe = probes[(w * per_worker + h) % len(probes)]
             hist = {"ops": ops, "probe": probe, "again": 2, "instrument": not (h % 4 == 3), "newparser": h % 2 == 0,
                     "worker": w, "seed": seed, "config": cfg}
+            # the histories of one worker share an interpreter: what ran before this one in the same process is part of its
+            # history (kept by reference to the earlier records, written out only into a replay file)
+            hist["earlier_in_worker"] = [x for x in hists if x["worker"] == w]
             hists.append(hist)
             lines.append(jline({"op": "hidden_history", "ops": ops, "probe": probe, "again": 2, "outdir": outdir,
                                 "instrument": hist["instrument"], "newparser": hist["newparser"], "struct": True}))
@@ -333,7 +336,7 @@ def run(chk):
         pr = r["probe"]
         fresh = ref_cfg.get((hist["probe"], hist["config"]))
         if r.get("constants_changed"):
-            disagreements.append({"stream": "inventory", "history": hist,
+            disagreements.append({"stream": "inventory", "history": flat_history(hist),
                                   "constant_tables_changed_at_run_time": r["constants_changed"]})
             st["inventory"]["disagreements"] += 1
         chk.cov["inventory"]["constant_tables_watched"] = max(chk.cov["inventory"].get("constant_tables_watched", 0), r.get("constants", 0))
@@ -342,13 +345,13 @@ def run(chk):
             same = (pr.get("exc") == fresh.get("exc")) and (pr.get("shas", [None])[:1] == fresh.get("shas", [None])[:1])
             if same and pr.get("cli") != fresh.get("cli"):
                 found.append(("the programmatic entry point (run_scriptplan) on the probe gives a different result after a history than in a fresh process",
-                              {"history": hist, "after_history": pr.get("cli"), "fresh": fresh.get("cli")}))
+                              {"history": flat_history(hist), "after_history": pr.get("cli"), "fresh": fresh.get("cli")}))
             if same and pr.get("stderrRun") != fresh.get("stderrRun"):
                 found.append(("the messages a run prints differ from those in a fresh process",
-                              {"history": hist, "after_history": pr.get("stderrRun"), "fresh": fresh.get("stderrRun")}))
+                              {"history": flat_history(hist), "after_history": pr.get("stderrRun"), "fresh": fresh.get("stderrRun")}))
             if not same:
                 found.append(("the probe's result after a history differs from the result in a fresh process",
-                              {"history": hist, "after_history": pr.get("shas"), "fresh": fresh.get("shas"),
+                              {"history": flat_history(hist), "after_history": pr.get("shas"), "fresh": fresh.get("shas"),
                                "exc": [pr.get("exc"), fresh.get("exc")],
                                "first_diff": first_diff((pr.get("digests") or [None])[0], (fresh.get("digests") or [None])[0])}))
         # oracle 2: repeated schedule()
@@ -493,6 +496,15 @@ def first_diff(a, b, path=""):
     return None if a == b else f"{path}: {str(a)[:80]} != {str(b)[:80]}"
 
 
+def flat_history(hist):
+    """a history as it goes into a replay file: the histories that ran before it in the same worker process written out (ops,
+    probe and parameters only)"""
+    keys = ("ops", "probe", "again", "instrument", "newparser", "worker", "seed", "config")
+    out = {k: hist[k] for k in keys if k in hist}
+    out["earlier_in_worker"] = [{k: e[k] for k in keys if k in e} for e in hist.get("earlier_in_worker", [])]
+    return out
+
+
 def replay(chk, data):
     """re-run the failing input of a replay file: prints the digests"""
     text = data.get("text") or (data.get("history") or {}).get("probe")
@@ -517,10 +529,14 @@ def replay(chk, data):
     hist = data.get("history") or {"ops": []}
     cfg = hist.get("config", "native")
     env = {"PYTHONHASHSEED": str(hist["seed"])} if hist.get("seed") not in (None, "random") else {}
-    out = junline(chk.impl._run_chunk(cfg, [jline({"op": "hidden_history", "ops": hist.get("ops", []), "probe": text,
-                                                   "again": int(hist.get("again", 2)), "outdir": chk.impl.build.root, "struct": True,
-                                                   "newparser": bool(hist.get("newparser", True)),
-                                                   "instrument": bool(hist.get("instrument", True))})], 600, env)[0])
+
+    def hline(h, probe):
+        return jline({"op": "hidden_history", "ops": h.get("ops", []), "probe": probe, "again": int(h.get("again", 2)),
+                      "outdir": chk.impl.build.root, "struct": True, "newparser": bool(h.get("newparser", True)),
+                      "instrument": bool(h.get("instrument", True))})
+    # the histories that ran before it in the same worker process first, in the same interpreter (one chunk = one process)
+    lines = [hline(e, e.get("probe", text)) for e in hist.get("earlier_in_worker", [])] + [hline(hist, text)]
+    out = junline(chk.impl._run_chunk(cfg, lines, 900, env)[-1])
     fresh = junline(chk.impl._run_chunk("native", [jline({"op": "hidden_probe", "probe": text, "again": 0, "outdir": chk.impl.build.root})], 600, {})[0])
     shas = out.get("probe", {}).get("shas")
     print("after history / repeated schedule():", shas)
